@@ -61,10 +61,10 @@ def run(ctx, ck) -> None:
                     if loop is not None and isinstance(loop.target, ast.Name) and loop.target.id == node.func.value.id:
                         elts = loop.iter.elts if isinstance(loop.iter, (ast.List, ast.Tuple)) else []
                         if not elts and isinstance(loop.iter, ast.Name):
-                            d = module.defs.get(loop.iter.id)
-                            if isinstance(d, ast.Assign) and isinstance(d.value, (ast.List, ast.Tuple)):
+                            d = module_of(loop.iter).defs.get(loop.iter.id)
+                            if isinstance(d, (ast.Assign, ast.AnnAssign)) and isinstance(d.value, (ast.List, ast.Tuple)):
                                 elts = d.value.elts
-                        is_tag = bool(elts) and all((world.qualify(module, e) or '').startswith('lineax.is_') for e in elts)
+                        is_tag = bool(elts) and all((world.qualify(module_of(e), e) or '').startswith('lineax.is_') for e in elts)
                 if not is_tag:
                     continue
                 nreg += 1
